@@ -28,6 +28,28 @@ K_WIDE = {(2, 1): 2, (2, 2): 3, (4, 1): 4, (4, 2): 5}
 DEG = {(2, 1): 1, (2, 2): 2, (4, 1): 3, (4, 2): 4}      # guaranteed for every row
 
 
+# rounding model: the weighted sum  sum_i (c_i/dx^n) f(P_i)  with f evaluated by Horner in
+# binary64 is within (2 deg + #points + 3) eps ~ 2e-15 of the exact value, relative to
+# B = max|c| * sum_i A(P_i) / dx^n,  A(P) = sum_k |a_k| |P|^k  (observed on the unchanged tree
+# over 36000 inputs of all families: <= 1.8e-16 B).  Tolerance 4e-15 B.
+CMAX = {(2, 1): Fraction(1), (4, 1): Fraction(3), (2, 2): Fraction(2), (4, 2): Fraction(19, 2)}
+RTOL = Fraction(4, 10 ** 15)
+MARGINS = {}
+
+
+def rounding_bound(coeffs, pts, dxe, order, n):
+    A = lambda q: sum(abs(Fraction(c)) * abs(Fraction(q)) ** i for i, c in enumerate(coeffs))
+    return CMAX[(order, n)] * sum(A(p) for p in pts) / abs(dxe) ** n
+
+
+def value_ok(family, got, want, coeffs, pts, dxe, order, n):
+    """|got - want| <= 4e-15 B; the largest ratio err/tol per family goes to the evidence"""
+    tol = RTOL * rounding_bound(coeffs, pts, dxe, order, n) + Fraction(1, 10 ** 300)
+    err = abs(Fraction(got) - Fraction(want))
+    MARGINS[family] = max(MARGINS.get(family, 0.0), float(err / tol))
+    return err <= tol
+
+
 class Rec:
     """Polynomial with integer coefficients that records EVERY call (derivative evaluates
     f twice)."""
@@ -215,9 +237,10 @@ def check_direct(ctx, case, res, pts, f):
                        key="non-finite-result")
         return False
     want = f.dexact(x, n)
-    mag = sum(abs(f.exact(p)) for p in pts) / abs(dxe) ** n + abs(want)
-    tol = Fraction(1, 10 ** 9) * mag * 64 + Fraction(1, 10 ** 300)
-    if abs(Fraction(res) - want) > tol:
+    fam = "narrow" if "narrow" in case["kind"] else ("critical" if "critical" in case["kind"]
+                                                     else ("dyadic" if case["dyadic"]
+                                                           else "float"))
+    if not value_ok(fam, res, want, case["coeffs"], pts, dxe, order, n):
         ctx.fail_input(
             "derivative(order=%d,n=%d) is not exact on a degree-%d polynomial: got %r, "
             "exact %r%s" % (order, n, len(case["coeffs"]) - 1, res, float(want),
@@ -258,8 +281,11 @@ def corr_cases(ctx, cases_with_results):
         # rounding model: the weighted sum is accurate to a few ulp of sum|c_i f(P_i)|/dx^n
         absval = lambda q: sum(abs(Fraction(c)) * abs(q) ** i
                                for i, c in enumerate(case["coeffs"]))
-        mag = sum(absval(p) for p in pts) / abs(dx) ** case["n"] * 20
-        tol = mag * Fraction(1, 10 ** 9) + Fraction(1, 10 ** 30)
+        dxe = Fraction(float(float(x) + float(dx))) - x
+        tol = 2 * RTOL * rounding_bound(case["coeffs"], pts, dxe, case["order"], case["n"])
+        # a short literal for Coq (binary64 value, rounded up); exact zero polynomial: 1e-30
+        tol = Fraction(float(tol) * (1 + 2.0 ** -40)) if tol > Fraction(1, 10 ** 300) \
+            else Fraction(1, 10 ** 30)
         terms.append("chk %d %d %s %s %s %s [%s] [%s] %s %s" % (
             case["n"], case["order"], vlib.coq_Q(x), vlib.coq_Q(dx), lb, ub,
             "; ".join(vlib.coq_Q(c) for c in case["coeffs"]),
@@ -378,7 +404,7 @@ def shape_values(ctx, rng, ncases):
         def tol(point, want, k, axes):
             st = steps(k)
             den = math.prod(st[a] for a in axes)
-            return 2e-13 * size(point) / den + 1e-9 * abs(want)
+            return 1e-14 * size(point) / den + 5e-11 * abs(want)
 
         case0 = dict(order=order, nv=nv, terms={str(k): v for k, v in terms.items()},
                      x=np.asarray(x).tolist(), lead=list(lead), step=stepkind,
@@ -587,8 +613,8 @@ def array_family(ctx, rng, ncases):
                 break
             want = g.dexact(Fraction(xi), n)
             dxe = Fraction(float(float(xi) + dx)) - Fraction(xi)
-            mag = sum(abs(g.exact(Fraction(float(p)))) for p in pi) / dxe ** n + abs(want)
-            if abs(Fraction(float(ri)) - want) > Fraction(64, 10 ** 9) * mag:
+            if not value_ok("array", float(ri), want, coeffs,
+                            [Fraction(float(p)) for p in pi], dxe, order, n):
                 ctx.fail_input(
                     "derivative(order=%d,n=%d) on %s x=%r inexact: got %r want %r" % (
                         order, n, "integer-typed" if ints else "float", xi, float(ri),
@@ -734,8 +760,8 @@ def step_limits(ctx, rng, ncases):
         else:
             dxe = Fraction(float(x + dx)) - Fraction(x)
             want = f.dexact(Fraction(x), n)
-            mag = sum(abs(f.exact(Fraction(float(p)))) for p in pts) / dxe ** n + abs(want)
-            if abs(Fraction(float(r)) - want) > Fraction(64, 10 ** 9) * mag:
+            if not value_ok("ulp_step", float(r), want, coeffs,
+                            [Fraction(float(p)) for p in pts], dxe, order, n):
                 ctx.fail_input("derivative with dx = %g ulp(x) inexact beyond rounding: got "
                                "%r want %r" % (dx / u, float(r), float(want)),
                                dict(kind="ulp", case=case), key="inexact-%d-%d" % (order, n))
@@ -761,8 +787,8 @@ def step_limits(ctx, rng, ncases):
         neg_out += bool(pn.min() < 0)
         dxe = Fraction(float(xs + dxn)) - Fraction(xs)
         want = h.dexact(Fraction(xs), n)
-        mag = sum(abs(h.exact(Fraction(float(p)))) for p in pn) / abs(dxe) ** n + abs(want)
-        if abs(Fraction(float(rn)) - want) > Fraction(64, 10 ** 9) * mag:
+        if not value_ok("negative_step", float(rn), want, coeffs,
+                        [Fraction(float(p)) for p in pn], dxe, order, n):
             ctx.fail_input("derivative with a negative step dx=%r: value inexact (got %r, "
                            "want %r)" % (dxn, float(rn), float(want)),
                            dict(kind="negdx", x=xs, dx=dxn, order=order, n=n, coeffs=coeffs),
@@ -1066,6 +1092,228 @@ def potential_level(ctx, rng, ncases):
                                key="potential-" + name)
 
 
+def outside_family(ctx, rng, ncases):
+    """x OUTSIDE the stated bounds (by one ulp, 1e-12, 5e-11, 1e-10 relative/absolute, one
+    step, nan; either side; scalar or one element of an array) must be REFUSED before f is
+    evaluated: that assertion is the only thing between a bad x and an evaluation outside
+    the bounds (Coq: rejected_or_in_bounds over the translated guard).  Also the documented
+    refusals of gradient/hessian: axis outside [-n, n)."""
+    from WallGo import helpers
+    for it in range(ncases):
+        order = rng.choice([2, 4])
+        n = rng.choice([0, 1, 2])
+        lb = rng.choice([0.0, 0.0, rng.uniform(-3, 3), float(rng.randint(-3, 3))])
+        width = rng.uniform(0.5, 4.0)
+        ub = lb + width
+        kind = rng.choice(["lower", "upper", "both"])
+        bounds = {"lower": (lb, np.inf), "upper": (-np.inf, ub), "both": (lb, ub)}[kind]
+        side = "lo" if kind == "lower" else ("hi" if kind == "upper" else
+                                             rng.choice(["lo", "hi"]))
+        edge = lb if side == "lo" else ub
+        sgn = -1.0 if side == "lo" else 1.0
+        dx = rng.uniform(0.1, 1.0) * 10.0 ** rng.randint(-6, -1)
+        how = rng.choice(["ulp", "1e-12", "5e-11", "1e-10", "1e-9rel", "step", "nan"])
+        xo = {"ulp": float(np.nextafter(edge, sgn * np.inf)), "1e-12": edge + sgn * 1e-12,
+              "5e-11": edge + sgn * 5e-11, "1e-10": edge + sgn * 1e-10,
+              "1e-9rel": edge + sgn * 1e-9 * max(1.0, abs(edge)), "step": edge + sgn * dx,
+              "nan": float("nan")}[how]
+        if how != "nan" and not (xo < lb or xo > ub):
+            xo = float(np.nextafter(edge, sgn * np.inf))
+        f = Rec([1, 3, -2])
+        if rng.random() < 0.5:
+            xin = xo
+        else:
+            inside = np.clip(np.array([lb + 3 * dx, lb + 5 * dx, ub - 3 * dx]), *sorted(
+                (max(lb, -1e300), min(ub, 1e300)))) if kind == "both" else \
+                np.array([edge - sgn * 3 * dx, edge - sgn * 5 * dx, edge - sgn * dx])
+            xin = inside.copy()
+            xin[rng.randint(0, 2)] = xo
+        case = dict(order=order, n=n, x=np.asarray(xin).tolist(), dx=dx,
+                    bounds=[float(bounds[0]), float(bounds[1])], how=how, side=side)
+        ctx.count("outside", case, bucket="%s %s n%d" % (how, side, n))
+        try:
+            r = helpers.derivative(f, xin, n=n, order=order, bounds=bounds, dx=dx)
+        except AssertionError:
+            if f.calls:
+                ctx.fail_input("derivative evaluated f at %s before refusing x=%r outside "
+                               "the bounds %r" % (np.asarray(f.calls[0]).ravel().tolist(), xin,
+                                                  bounds),
+                               dict(kind="outside", case=case), key="x-outside-evaluated")
+            continue
+        except Exception as e:
+            ctx.fail_input("derivative raised %r (not the documented AssertionError) for x "
+                           "outside the bounds" % e, dict(kind="outside", case=case),
+                           key="x-outside-raises-other")
+            continue
+        pts = np.concatenate([np.asarray(c).ravel() for c in f.calls]) if f.calls else []
+        ctx.fail_input(
+            "derivative ACCEPTS x=%r outside the bounds %r (%s beyond the %s bound) and "
+            "evaluates f at %s (result %s)" % (
+                xin, tuple(float(b) for b in bounds), how, "lower" if side == "lo" else "upper",
+                np.asarray(pts).tolist(), np.asarray(r).tolist()),
+            dict(kind="outside", case=case), key="x-outside-bounds-accepted")
+    # axis selections outside [-n, n) are refused
+    for nv in (1, 2, 3):
+        x = np.arange(1.0, nv + 1.0)
+        g = lambda X: (np.asarray(X) ** 2).sum(-1)
+        for bad in (nv, -nv - 1, [0, nv], [-nv - 1]):
+            for fn, kw in ((helpers.gradient, dict(axis=bad)), (helpers.hessian, dict(xAxis=bad)),
+                           (helpers.hessian, dict(yAxis=bad))):
+                ctx.count("outside")
+                try:
+                    fn(g, x, dx=0.1, **kw)
+                except AssertionError:
+                    continue
+                except Exception as e:
+                    pass
+                ctx.fail_input("%s accepts the axis selection %r for %d variables" % (
+                    fn.__name__, bad, nv), dict(kind="axis_range", nv=nv, bad=bad,
+                                                fn=fn.__name__, kw=list(kw)),
+                    key="axis-out-of-range-accepted")
+
+
+def potential_shapes(ctx, rng, ncases):
+    """SHAPES (np.shape, before any flattening) and values of the five EffectivePotential
+    entry points for the kinds of input the production path uses: FieldPoint (1-D, what
+    FreeEnergy.tracePhase passes), Fields with one / N points; temperature as python float,
+    int, numpy scalar, 0-d array, length-1 / length-N list or array.  Contract (docstrings):
+    T is a scalar or a 1-D array with one entry per field point.  derivT has the shape of T;
+    the others have lead = fields.shape[:-1] followed by (nf,), (nf,), (nf, nf) and, for
+    allSecondDerivatives, (nf, nf), (nf,), ()."""
+    import WallGo
+    from WallGo import Fields
+    from WallGo.fields import FieldPoint
+    for it in range(ncases):
+        nf = rng.choice([1, 2, 3])
+        monos = _mono_poly(rng, nf)
+        Poly = make_potential_class(nf, monos)
+        params = {"c" + "".join(map(str, m)): float(rng.randint(-5, 5) or 1) for m in monos}
+        pot = Poly(params)
+        tscale = rng.choice([0.5, 1.0, 2])
+        pot.configureDerivatives(WallGo.VeffDerivativeSettings(
+            temperatureVariationScale=tscale, fieldValueVariationScale=1.0))
+        dT = float(tscale) * 1e-15 ** (1 / 5)
+        ints = rng.random() < 0.3
+        N = rng.choice([2, 3, 5])
+        rows = [[rng.randint(-3, 3) if ints else rng.uniform(-3, 3) for _ in range(nf)]
+                for _ in range(N)]
+        tv = [rng.choice([0.0, dT, 2 * dT, 1.5 * dT, rng.uniform(0.2, 3.0)]) for _ in range(N)]
+        t0 = rng.choice([0.0, dT, 2, 1, tv[0], rng.uniform(0.2, 3.0)])
+        combos = []
+        for fk, F, lead, pts in (
+                ("FieldPoint", FieldPoint(np.array(rows[0])), (), [rows[0]]),
+                ("Fields1", Fields(rows[0]), (1,), [rows[0]])):
+            for tk, T in (("float", float(t0)), ("int", int(t0) if float(t0) == int(t0) else 1),
+                          ("np.float64", np.float64(t0)), ("0d", np.array(float(t0)))):
+                combos.append((fk, tk, F, T, lead, (), pts, [float(T)]))
+        combos.append(("FieldPoint", "arr1", FieldPoint(np.array(rows[0])), np.array([tv[0]]),
+                       (), (1,), [rows[0]], [tv[0]]))
+        for tk, T in (("list1", [tv[0]]), ("arr1", np.array([tv[0]]))):
+            combos.append(("Fields1", tk, Fields(rows[0]), T, (1,), (1,), [rows[0]], [tv[0]]))
+        FN = Fields(*[np.array(r) for r in rows])
+        for tk, T in (("listN", list(tv)), ("arrN", np.array(tv))):
+            combos.append(("FieldsN", tk, FN, T, (N,), (N,), rows, tv))
+        # N points, one temperature: the gradient/Hessian entry points broadcast it (derivT
+        # does not: observation, see `observations`)
+        combos.append(("FieldsN", "float", FN, float(t0), (N,), None, rows, [float(t0)] * N))
+        for fk, tk, F, T, lead, tshape, pts, Ts in combos:
+            want_shapes = {"derivT": tshape, "derivField": lead + (nf,),
+                           "deriv2FieldT": lead + (nf,), "deriv2Field2": lead + (nf, nf),
+                           "allSecondDerivatives": (lead + (nf, nf), lead + (nf,), lead)}
+            for name in ENTRY_POINTS:
+                if want_shapes[name] is None:
+                    continue
+                case = dict(nf=nf, monos=[list(m) for m in monos], params=params, fields=fk,
+                            T=tk, rows=pts, temps=Ts, entry=name, tscale=tscale, ints=ints)
+                ctx.count("potential_shapes", case, bucket="%s %s" % (fk, tk))
+                try:
+                    res = getattr(pot, name)(F, T)
+                except Exception as e:
+                    ctx.fail_input("EffectivePotential.%s(%s, T as %s) raised %r" % (
+                        name, fk, tk, e), dict(kind="pshape", case=case),
+                        key="potential-raises")
+                    continue
+                got_shapes = tuple(np.shape(r) for r in res) if isinstance(res, tuple) \
+                    else np.shape(res)
+                if got_shapes != want_shapes[name]:
+                    ctx.fail_input(
+                        "EffectivePotential.%s(%s, T as %s of shape %s) returns shape %s, "
+                        "expected %s" % (name, fk, tk, np.shape(T), got_shapes,
+                                         want_shapes[name]), dict(kind="pshape", case=case),
+                        key="potential-shape-" + name)
+                    continue
+                flat = _flatten(res)
+                ex = []
+                P = [[float(q) for q in v] + [float(t)] for v, t in zip(pts, Ts)]
+                e = lambda Pt, *idx: _pot_exact(params, monos, Pt, [idx.count(i) for i in
+                                                                    range(nf + 1)])
+                if name == "derivT":
+                    ex = [e(Pt, nf) for Pt in P]
+                elif name == "derivField":
+                    ex = [e(Pt, i) for Pt in P for i in range(nf)]
+                elif name == "deriv2FieldT":
+                    ex = [e(Pt, i, nf) for Pt in P for i in range(nf)]
+                elif name == "deriv2Field2":
+                    ex = [e(Pt, i, j) for Pt in P for i in range(nf) for j in range(nf)]
+                else:
+                    ex = [e(Pt, i, j) for Pt in P for i in range(nf) for j in range(nf)] + \
+                        [e(Pt, i, nf) for Pt in P for i in range(nf)] + \
+                        [e(Pt, nf, nf) for Pt in P]
+                ex = np.array(ex)
+                tl = 1e-6 if name in ("derivT", "derivField") else 2e-4
+                if flat.shape != ex.shape or np.max(np.abs(flat - ex)) > tl * (
+                        1 + np.max(np.abs(ex))):
+                    ctx.fail_input("EffectivePotential.%s(%s, T as %s) inexact: got %s want %s"
+                                   % (name, fk, tk, flat.tolist()[:6], ex.tolist()[:6]),
+                                   dict(kind="pshape", case=case), key="potential-" + name)
+
+
+def observations(ctx):
+    """Inputs OUTSIDE the quantifier that raise (loudly) on the unchanged tree; logged, not
+    judged: (1) derivT(N > 1 field points, scalar T): the lambda handed to derivative cannot
+    broadcast N points against the 4 stencil temperatures; (2) the gradient/Hessian entry
+    points with ONE field point and a T array of length 3 (docstring: T is a scalar or has
+    one entry per field point); (3) numpy-integer axes (docstring: list, int or None;
+    isinstance(np.int64(0), int) is False); (4) negative temperatureVariationScale: derivT(0)
+    evaluates at T < 0 (derivT_bound_positive_step assumes dT > 0)."""
+    import WallGo
+    from WallGo import helpers, Fields
+    Poly = make_potential_class(2, [(2, 0, 1), (0, 3, 0), (1, 1, 2)])
+    par = {"c201": 1.0, "c030": 1.0, "c112": 1.0}
+    pot = Poly(par)
+    pot.configureDerivatives(WallGo.VeffDerivativeSettings(1.0, 1.0))
+    out = []
+
+    def probe(label, fn):
+        try:
+            r = fn()
+            out.append("%s -> ok shape %s" % (label, np.shape(r) if not isinstance(r, tuple)
+                                              else [np.shape(z) for z in r]))
+        except Exception as e:
+            out.append("%s -> %s" % (label, type(e).__name__))
+    F3 = Fields([1.0, 2.0], [3.0, 4.0], [0.5, 0.25])
+    F1 = Fields([1.0, 2.0])
+    probe("derivT(3 points, scalar T)", lambda: pot.derivT(F3, 1.5))
+    probe("derivField(1 point, T of shape (3,))",
+          lambda: pot.derivField(F1, np.array([0.5, 1.0, 2.0])))
+    g = lambda X: (np.asarray(X) ** 2).sum(-1)
+    probe("gradient(axis=np.int64(0))",
+          lambda: helpers.gradient(g, np.array([1.0, 2.0]), dx=0.1, axis=np.int64(0)))
+    probe("hessian(xAxis=np.int64(0))",
+          lambda: helpers.hessian(g, np.array([1.0, 2.0]), dx=0.1, xAxis=np.int64(0)))
+    neg = Poly(par)
+    neg.configureDerivatives(WallGo.VeffDerivativeSettings(-1.0, 1.0))
+    neg.seenT.clear()
+    try:
+        neg.derivT(F1, 0.0)
+        out.append("derivT(T=0) with temperatureVariationScale=-1 -> min T evaluated %r" %
+                   min(neg.seenT))
+    except Exception as e:
+        out.append("derivT(T=0) with temperatureVariationScale=-1 -> %s" % type(e).__name__)
+    ctx.log("observations (outside the quantifier, not judged): " + "; ".join(out))
+
+
+
 # ---------------------------------------------------------------------------------------
 # recorded finding: replayed deterministically at the start of every run
 
@@ -1211,6 +1459,11 @@ def run(ctx):
     grad_hess_points(ctx, ctx.rng, ctx.n(40, 400))
     potential_level(ctx, ctx.rng, ctx.n(60, 600))
     potential_history(ctx, ctx.rng, ctx.n(12, 150))
+    potential_shapes(ctx, ctx.rng, ctx.n(10, 120))
+    outside_family(ctx, ctx.rng, ctx.n(150, 2000))
+    observations(ctx)
+    ctx.cov["margins"] = {k: round(v, 4) for k, v in sorted(MARGINS.items())}
+    ctx.log("largest |error| / tolerance per family:", ctx.cov["margins"])
     ctx.cov["rule"] = (
         "cases = (order, n, x, dx, bounds, integer polynomial of the proved degree); "
         "x placed at / j steps from / between steps of either bound or interior; dx "
@@ -1249,6 +1502,37 @@ def replay(rep):
                                bounds=tuple(rep["bounds"]), dx=rep["dx"])
         print("result", float(r), "(exact derivative of 1+3x: 3)", "points",
               [np.asarray(p).ravel().tolist() for p in f.calls], "bounds", rep["bounds"])
+    elif rep.get("kind") == "outside":
+        c = rep["case"]
+        f = Rec([1, 3, -2])
+        x = np.array(c["x"]) if isinstance(c["x"], list) else c["x"]
+        try:
+            r = helpers.derivative(f, x, n=c["n"], order=c["order"], bounds=tuple(c["bounds"]),
+                                   dx=c["dx"])
+            print("ACCEPTED: result", np.asarray(r).tolist(), "f evaluated at",
+                  [np.asarray(p).ravel().tolist() for p in f.calls])
+        except AssertionError as e:
+            print("refused (AssertionError):", str(e)[:120], "; f evaluated", len(f.calls),
+                  "times")
+    elif rep.get("kind") == "pshape":
+        import WallGo
+        from WallGo import Fields
+        from WallGo.fields import FieldPoint
+        c = rep["case"]
+        Poly = make_potential_class(c["nf"], [tuple(m) for m in c["monos"]])
+        pot = Poly(c["params"])
+        pot.configureDerivatives(WallGo.VeffDerivativeSettings(
+            temperatureVariationScale=c["tscale"], fieldValueVariationScale=1.0))
+        rows = [np.array(r) for r in c["rows"]]
+        F = FieldPoint(rows[0]) if c["fields"] == "FieldPoint" else Fields(*rows)
+        T = {"float": lambda t: float(t[0]), "int": lambda t: int(t[0]),
+             "np.float64": lambda t: np.float64(t[0]), "0d": lambda t: np.array(t[0]),
+             "arr1": lambda t: np.array(t[:1]), "list1": lambda t: list(t[:1]),
+             "listN": lambda t: list(t), "arrN": lambda t: np.array(t)}[c["T"]](c["temps"])
+        res = getattr(pot, c["entry"])(F, T)
+        print(c["entry"], "(", c["fields"], ", T =", repr(T), ") has shape",
+              [np.shape(r) for r in res] if isinstance(res, tuple) else np.shape(res))
+        print("value", _flatten(res).tolist())
     elif rep.get("kind") == "shape_value":
         c = rep["case"]
         terms = {tuple(int(t) for t in k.strip("()").split(",") if t.strip()): v
